@@ -9,7 +9,7 @@ def missingArgs (args : List Argument) (mk : ArgDef → Bytes) (p : Pos) : List 
     if !ad.type.nonNull || ad.default.isSome || args.any (·.name == ad.name) then missingArgs args mk p rest
     else errAt (mk ad) p :: missingArgs args mk p rest
 
-def providedRequiredArgumentsStep (_ : Schema) (_ : QueryDoc) (e : Event) : List RErr :=
+def providedRequiredArgumentsStep (_ : SV) (_ : QueryDoc) (e : Event) : List RErr :=
   match e.p with
   | .field f _ (some fd) =>
     missingArgs f.args (fun ad => str "Field " ++ dq f.name ++ str " argument " ++ dq ad.name ++ str " of type "
